@@ -261,6 +261,17 @@ Definition C07_termination_full_statement : Prop := forall d q k votes n tgt dor
   wf_votes votes -> (forall i j, 0 <= mget votes i j) -> NoDup dorder ->
   exists fuel, evaluate_core d q votes tgt dorder n fuel <> BP_out_of_fuel.
 
+(* 8. what the wire unit 105 runs (one pass that returns the trace and the outcome) IS the model of the theorems above *)
+Theorem C07_unit_runs_the_model : forall d q votes tgt dorder n fuel,
+  snd (run_core d q votes tgt dorder n fuel) = evaluate_core d q votes tgt dorder n fuel /\
+  snd (run_total d q votes n dorder fuel) = evaluate_total d q votes n dorder fuel /\
+  fst (run_core d q votes tgt dorder n fuel) =
+    match binit d q votes n with inr s => btrace q votes tgt dorder fuel s | inl _ => [] end.
+Proof.
+  intros d q votes tgt dorder n fuel. destruct (run_core_spec d q votes tgt dorder n fuel) as [H1 H2].
+  split; [exact H1|]. split; [apply run_total_spec|exact H2].
+Qed.
+
 (* the hypothesis "some vote is positive" cannot be dropped: on a matrix without a single vote the faithful model (like
    the implementation: known finding C07-all-zero) returns a matrix with a seat in a cell without votes *)
 Definition zero_votes : mat := [(1%positive, [(1%positive, 0)]); (2%positive, [(1%positive, 0)])].
@@ -351,3 +362,4 @@ Print Assumptions C07_d_hondt_partial_correct.
 Print Assumptions C07_sainte_lague_partial_correct.
 Print Assumptions C07_all_zero_refuted.
 Print Assumptions C07_transfer_progress.
+Print Assumptions C07_unit_runs_the_model.
